@@ -115,6 +115,102 @@ theorem ok_model_empty (vars : PyDict S S) (evs : List Sax) :
     ok vars none (observe vars (expand vars true evs)) = true := by
   simp [expand_empty, ok, observe, applyAll]
 
+/-! ### what the judge means (soundness of `ok`, independent of the model) -/
+
+/-- **Judge soundness, first-order form.**  Whatever produced the observation `o` (the model or the
+    implementation): if `ok` accepts it for the well-formed event `d`, then nothing was raised, no
+    other service was touched, and
+    * every service variable holds the value of the last master-channel entry of instance 0 naming
+      it (prefix ignored) if there is one, else its old value; nothing else appears;
+    * there is at most one further callback, and it carries exactly the service variables named by
+      those entries (none, or an empty one, if there are none);
+    * an event without any instance-0 entry leaves all values as they were, with no callback that
+      carries a variable. -/
+theorem ok_sound (vars : PyDict S S) (d : LcDoc) (o : Obs) (h : ok vars (some d) o = true) :
+    o.raised = false ∧ o.othersUnchanged = true
+    ∧ (∀ n, get? o.after n = match get? vars n with
+        | none => none
+        | some old => some ((get? (master0 d) n).getD old))
+    ∧ (o.callbacks = [] ∧ relevant vars (master0 d) = []
+        ∨ ∃ c, o.callbacks = [c] ∧ sameNames c ((relevant vars (master0 d)).map (·.1)) = true)
+    ∧ ((entries0 d).isEmpty = true → o.after = vars ∧ (o.callbacks = [] ∨ o.callbacks = [[]])) := by
+  simp only [ok, Bool.and_eq_true, Bool.not_eq_true', beq_iff_eq] at h
+  obtain ⟨⟨⟨hr, ho⟩, ha⟩, hc⟩ := h
+  have hcb : o.callbacks = [] ∧ relevant vars (master0 d) = []
+      ∨ ∃ c, o.callbacks = [c] ∧ sameNames c ((relevant vars (master0 d)).map (·.1)) = true := by
+    cases hcs : o.callbacks with
+    | nil => left; simp only [hcs] at hc; exact ⟨rfl, List.isEmpty_iff.mp hc⟩
+    | cons c r =>
+      cases r with
+      | nil => right; simp only [hcs] at hc; exact ⟨c, rfl, hc⟩
+      | cons _ _ => simp [hcs] at hc
+  refine ⟨hr, ho, ?_, hcb, ?_⟩
+  · intro n; rw [ha]; exact get?_expected vars d n
+  · intro he
+    have hm : master0 d = [] := by
+      have : entries0 d = [] := List.isEmpty_iff.mp he
+      simp [master0, this, ofList, merge]
+    have hrel : relevant vars (master0 d) = [] := by simp [hm, relevant]
+    refine ⟨by rw [ha, hrel]; rfl, ?_⟩
+    rcases hcb with ⟨h1, _⟩ | ⟨c, h1, h2⟩
+    · exact Or.inl h1
+    · right
+      rw [h1]
+      simp only [hrel, List.map_nil, sameNames, Bool.and_eq_true, beq_iff_eq] at h2
+      have : c = [] := List.eq_nil_of_length_eq_zero (by simpa using h2.1.1)
+      rw [this]
+
+/-- **Other instances are ignored** — as a statement about the specification itself: the expected
+    assignments do not change when every instance whose id is not `"0"` is deleted from the event. -/
+theorem master0_other_instances (d : LcDoc) :
+    master0 d = master0 { d with insts := d.insts.filter (·.id == sZero) } := by
+  simp [master0, entries0, List.filter_filter]
+
+/-- **Other channels are ignored**: the expected assignments do not change when every entry with a
+    channel other than `Master` is deleted from every instance. -/
+theorem master0_other_channels (d : LcDoc) :
+    master0 d = master0 { d with insts := d.insts.map fun i => { i with entries := i.entries.filter isMaster } } := by
+  simp only [master0, entries0]
+  congr 2
+  induction d.insts with
+  | nil => rfl
+  | cons i r ih =>
+    by_cases hi : (i.id == sZero) = true
+    · simp [List.filter_cons, hi, List.filter_append, List.filter_filter, ih]
+    · simp [List.filter_cons, hi, ih]
+
+/-- **Attribute order and extra attributes.**  `events d` writes the attributes in one fixed order;
+    the handler only ever looks up `val` and `channel`, so the results above hold for **every**
+    event stream that agrees with `events d` on element names and on those two attributes —
+    whatever the order of the attributes and whatever further (vendor) attributes an element has. -/
+theorem expand_effect_any_attrs (vars : PyDict S S) (d : LcDoc) (hw : WF d) (hl : d.loose = [])
+    (evs : List Sax) (h : attrEquivL evs (events d)) :
+    (∃ st, run evs = .ok st
+      ∧ get? st.changes sZero = (if (entries0 d).isEmpty then none else some (master0 d)))
+    ∧ expand vars false evs = expand vars false (events d)
+    ∧ ok vars (some d) (observe vars (expand vars false evs)) = true := by
+  have hrun : run evs = run (events d) := runFrom_congr _ _ h {}
+  have hexp : expand vars false evs = expand vars false (events d) := by
+    simp only [expand, hrun]
+  refine ⟨?_, hexp, ?_⟩
+  · rw [hrun]; exact instance0_master d hw hl
+  · rw [hexp]; exact ok_model vars d hw hl
+
+/-- non-vacuity: the same entry written `val … channel … x-vendor` instead of `channel … val` -/
+example :
+    let d : LcDoc := ⟨[], [⟨"0".toList, [⟨none, "Volume".toList, some "Master".toList, "7".toList⟩], none⟩], []⟩
+    let evs : List Sax :=
+      [.start "Event".toList [("xmlns".toList, "urn:x".toList)],
+       .start "InstanceID".toList [("val".toList, "0".toList), ("id".toList, "a".toList)],
+       .start "Volume".toList [("val".toList, "7".toList), ("channel".toList, "Master".toList), ("x-vendor".toList, "1".toList)],
+       .stop "Volume".toList, .stop "InstanceID".toList, .stop "Event".toList]
+    wfB d = true ∧ d.loose = [] ∧ evs ≠ events d ∧ attrEquivL evs (events d) := by
+  intro d evs
+  refine ⟨by decide, rfl, by decide, ?_⟩
+  simp only [attrEquivL, attrEquiv, evs, events, d, instEvents, entryEvents, iname, qname, entryAttrs,
+    List.flatMap_cons, List.flatMap_nil, List.append_nil, List.nil_append, List.cons_append]
+  decide
+
 /-- non-vacuity: a document with a prefixed entry, three channels, a repeated name, a second
     instance and a second block of instance 0 is well formed; the handler's mapping and the
     expansion on a service holding `Volume`, `Mute` (and not `Bogus`) are as the property says. -/
